@@ -705,8 +705,12 @@ def enum_probes():
         yield {"op": "remove", "by": "name", "arg": n, "inject": True}
     for p in ["a", "A", "a_", "a%", "_", "%", "P", "p", NS_NAME, "Pyro.", "", "\u00e9", "\u00c9", "ab", "to", "t", "b", "a\\", "zzz"]:
         yield {"op": "remove", "by": "prefix", "arg": p, "inject": True}
-    for r in ["a", "a.", ".*", ".", "(?i)a", "[", "*", "a_", "%", "Pyro.*", "Pyro\\.NameServer$", "", "^$", "(?i)\u00e9", "[tb]", "x|.+c", "\\"]:
+    for r in ["a", "a.", ".*", ".", "(?i)a", "[", "*", "a_", "%", "Pyro.*", "Pyro\\.NameServer$", "", "^$", "(?i)\u00e9", "[tb]", "x|.+c", "\\",
+              # literal beginnings whose last character is optional / repeated / part of an alternative
+              "ab?", "ab*", "ab?c", "axc?", "a_?", "ax{0,1}c", "ab{,2}", "to?p", "top|a", "a(b|x)c?", "(a|A)b", "a+", "a\\w*", "Ab?c", "axc$", "a.?c", "[a]b?"]:
         yield {"op": "remove", "by": "regex", "arg": r, "inject": True}
+    for r in ["ab?", "ab*c", "axc?", "to?p", "a(b|x)c?", "a.?c", "A?b", "(?i)a?b"]:
+        yield {"op": "list", "by": "regex", "arg": r, "rm": True}
 
 
 def enum_cases():
